@@ -361,11 +361,12 @@ def strategy():
     @st.composite
     def build(draw):
         names = draw(st.lists(st.sampled_from(
-            ["wf", "Orders", "pay ments", "wf2", "x.y"]), min_size=1,
+            ["wf", "Orders", "pay ments", "wf2", "x.y"]),
+            min_size=draw(st.sampled_from([1, 2, 2, 3])),
             max_size=3, unique=True))
         wfs = [draw(workflow(nm, wi)) for wi, nm in enumerate(names)]
         total = sum(len(t) for w in wfs for t in w["traces"])
-        case = {"workflows": wfs, "async": draw(st.booleans()),
+        case = {"workflows": wfs, "async": draw(st.integers(0, 9)) < 7,
                 "files": draw(st.integers(1, 3)),
                 "batch": draw(st.sampled_from([1, 2, 5, 1000])),
                 "order": list(draw(st.permutations(list(range(total))))),
